@@ -307,79 +307,165 @@ def rule_write(ctx):
 
 
 # ------------------------------------------------------------------------ C03.READ
+def registry_in_import_order(p):
+    """Registered message classes in the order their decorators run (module import order of indi/message/__init__)."""
+    import ast as _ast
+    init = p.module("indi.message")
+    order = []
+    for st in init.tree.body:
+        if isinstance(st, _ast.ImportFrom):
+            m = p._abs_module(init, st.module, st.level)
+            if m not in order:
+                order.append(m)
+    regs = [c for c in msg_base(p).all_subclasses() if is_registered(c)]
+    # modules imported transitively first (base is imported by every module)
+    def key(c):
+        m = c.module.name
+        return (0 if m == "indi.message.base" else 1 + (order.index(m) if m in order else len(order)), c.node.lineno)
+    return sorted(regs, key=key)
+
+
+def xml_element(tag, attrib, text=None, children=()):
+    return Obj(None, {"tag": Const(tag), "attrib": Dct([(Const(k), Const(v)) for k, v in attrib.items()]), "text": Const(text), "__iter__": Lst(list(children))}, label=f"<{tag}>")
+
+
+def parse_opts(p):
+    regs = registry_in_import_order(p)
+
+    def pol(fi, node):
+        return fi.module.name.startswith("indi.message.") and fi.module.name != "indi.message.checks"
+
+    def inst(ci):
+        return ci.module.name.startswith("indi.message.")
+
+    return regs, {"inline": pol, "instantiate": inst, "max_depth": 12}
+
+
+def seed_registry(it, p, regs):
+    it.heap[("cls:indi.message.base.IndiMessage", "_message_classes")] = Lst([Cls(c) for c in regs])
+
+
 def rule_read(ctx):
     p = ctx.p
-    for base, registry_call, part in ((msg_base(p), "all_message_classes", False), (part_base(p), "_all_subclasses", True)):
-        f = base.find_method("from_xml")
-        if f is None:
-            raise Undecided("from_xml missing")
-        paths = run_method(p, f, self_val=Cls(base), args=[Term("param", "xml")], opts={"max_for": 2})
+    regs, opts = parse_opts(p)
+    base = msg_base(p)
+    f = base.find_method("from_xml")
+    fp = part_base(p).find_method("from_xml")
+    if f is None or fp is None:
+        raise Undecided("from_xml missing")
+    specs = []
+    for ci in regs:
+        sig = p.init_chain_signature(ci)
+        names = [n_ for n_ in sig.named() if n_ not in ("children", "value")]
+        attrib = {n_: f"{n_}-text" for n_ in names}
+        has_value = "value" in sig.named()
+        kids = []
+        ccls = None
+        for cand in ("children_class", "child_class"):
+            v = p.class_constant(ci, cand)
+            if v is not None and hasattr(v, "mro"):
+                ccls = v
+        if ccls is not None:
+            psig = p.init_chain_signature(ccls)
+            for i in range(2):
+                pattr = {n_: f"c{i}-{n_}" for n_ in psig.named() if n_ != "value"}
+                kids.append((ccls, pattr, f"  child{i} text \n"))
+        specs.append((ci, attrib, "  some text  " if has_value else None, kids))
+    bad = False
+    nparsed = 0
+    for order_name, seq in (("registry order", specs), ("reverse order", list(reversed(specs)))):
+        results = {}
+
+        def run(it: Interp, seq=seq, results=results):
+            seed_registry(it, p, regs)
+            for ci, attrib, text, kids in seq:
+                ch = [xml_element(lower_first(k.name), pa_, t_) for k, pa_, t_ in kids]
+                el = xml_element(lower_first(ci.name), attrib, text, ch)
+                results[ci.name] = it.run_function(Fn(f, Cls(base)), [el], {})
+            return Const(None)
+
+        paths = explore(p, run, opts)
         ctx.paths_enumerated += len(paths)
-        rets = [pa for pa in paths if pa.outcome == "return"]
-        raises = [pa for pa in paths if pa.outcome == "raise"]
-        inst = f.short
-        bad = False
-        if not rets:
-            ctx.violated("C03.READ", inst, "from_xml never returns", fi=f, text="never-returns")
+        if len(paths) != 1 or paths[0].outcome != "return":
+            pa = paths[0]
+            raises = [e for e in pa.events if e.kind == "raise"]
+            where = f"{raises[-1].fn.short}:{raises[-1].line}" if raises and raises[-1].fn is not None else "?"
+            if len(paths) == 1 and pa.outcome == "raise":
+                done = sorted(results)
+                ctx.violated("C03.READ", f.short, f"parsing the library's own element kinds in {order_name} raises {show(pa.value)[:70] if pa.value is not None else ''} at {where} after {len(done)} of {len(seq)} kinds: a message the library can emit is rejected by its own parser", fi=f, text=f"parse-raises:{order_name}:{where.split('::')[-1].split(':')[0]}", witness=f"{order_name}; fails after {done[-1] if done else 'nothing'}")
+            else:
+                ctx.undecided("C03.READ", f.short, f"parse sequence not decided by constant evaluation ({len(paths)} paths)", fi=f)
+            bad = True
             continue
-        for pa in rets:
-            v = pa.value
-            if not (isinstance(v, Term) and v.op == "call"):
-                ctx.undecided("C03.READ", inst, f"result is not a constructor call: {show(v)[:80]}", fi=f)
+        for ci, attrib, text, kids in seq:
+            nparsed += 1
+            r = results.get(ci.name)
+            inst = f"{f.short}[<{lower_first(ci.name)}>]"
+            if not (isinstance(r, Obj) and r.cls is ci):
+                got = r.cls.qualname if isinstance(r, Obj) and r.cls is not None else show(r)[:50]
+                ctx.violated("C03.READ", inst, f"<{lower_first(ci.name)}> parses ({order_name}) to {got} instead of {ci.qualname}: the kind of the message changes in a round trip", fi=f, text=f"wrong-class:{ci.name}:{got}", witness=f"parse sequence in {order_name}")
                 bad = True
                 continue
-            callee = v.args[0]
-            if not mentions(callee, lambda t: isinstance(t, Term) and t.op == "call" and is_call(t, method=registry_call)):
-                ctx.violated("C03.READ", inst, f"the class that is instantiated does not come from the registry ({registry_call}): {show(callee)[:60]}", fi=f, text="callee-not-from-registry")
-                bad = True
-            starkw = [x for k, x in v.args[2] if k is None]
-            if not any(show(x) == "xml.attrib" for x in starkw) or v.args[1]:
-                ctx.violated("C03.READ", inst, f"the XML attributes are not passed as keyword arguments: {show(v)[:80]}", fi=f, text="attrib-not-forwarded")
-                bad = True
-            # tag test guards the selection
-            tagtests = [e for e in pa.assumes() if e.data["truth"] and isinstance(e.data["cond"], Term) and e.data["cond"].op == "cmp" and "tag_name()" in show(e.data["cond"]) and "xml.tag" in show(e.data["cond"]) and e.data["cond"].args[0] == "=="]
-            if not tagtests:
-                ctx.violated("C03.READ", inst, "a class is selected without comparing its tag_name() with xml.tag", fi=f, text="no-tag-test")
-                bad = True
-            # text
-            vstores = [e for e in pa.events if e.kind == "store" and e.data.get("key") is not None and show(e.data["key"]) == "'value'"]
-            text_true = any(e.data["truth"] and show(e.data["cond"]) == "xml.text" for e in pa.assumes())
-            text_false = any((not e.data["truth"]) and show(e.data["cond"]) == "xml.text" for e in pa.assumes())
-            if text_true:
-                if not vstores or show(vstores[-1].data["value"]) != "xml.text.strip()":
-                    ctx.violated("C03.READ", inst, f"non-empty text is not passed as value=xml.text.strip(): {show(vstores[-1].data['value']) if vstores else 'no value keyword'}", fi=f, text="text-not-stripped")
+            for k, v in attrib.items():
+                got = r.attrs.get(k)
+                if got is None or not mentions(got, lambda t: isinstance(t, Const) and t.v == v):
+                    ctx.violated("C03.READ", inst, f"XML attribute {k}={v!r} does not arrive in the message's attribute '{k}' (it is {show(got)[:40] if got is not None else 'missing'})", fi=f, text=f"attr-lost:{ci.name}:{k}")
                     bad = True
-            elif text_false:
-                if vstores and not (isinstance(vstores[-1].data["value"], Const) and vstores[-1].data["value"].v is None):
-                    ctx.violated("C03.READ", inst, f"empty text is passed as {show(vstores[-1].data['value'])} instead of being absent/None", fi=f, text="empty-text")
+            if text is not None:
+                got = r.attrs.get("value")
+                if got is None or not mentions(got, lambda t: isinstance(t, Const) and t.v == text.strip()):
+                    ctx.violated("C03.READ", inst, f"element text {text!r} arrives as {show(got)[:40] if got is not None else None}, expected the stripped text", fi=f, text=f"text:{ci.name}")
                     bad = True
-            else:
-                ctx.undecided("C03.READ", inst, "no truthiness test of xml.text on a returning path", fi=f)
-                bad = True
-            if not part:
-                cstores = [e for e in pa.events if e.kind == "store" and e.data.get("key") is not None and show(e.data["key"]) == "'children'"]
-                for e in cstores:
-                    cv = e.data["value"]
-                    good = (
-                        isinstance(cv, Term) and cv.op == "comp" and cv.args[3] in ("tuple", "list") and show(cv.args[1]) == "xml" and not cv.args[2]
-                        and isinstance(cv.args[0], Term) and is_call(cv.args[0], method="from_xml") and len(cv.args[0].args[1]) == 1
-                        and isinstance(cv.args[0].args[1][0], Term) and cv.args[0].args[1][0].op == "elem"
-                    )
-                    if not good:
-                        ctx.violated("C03.READ", inst, f"children are not parsed 1:1 in document order from the element's sub-elements: {show(cv)[:90]}", fi=f, text="children-order")
-                        bad = True
-                has_children_test = any(isinstance(e.data["cond"], Term) and e.data["cond"].op == "comp" for e in pa.assumes())
-                if not cstores and any(e.data["truth"] and isinstance(e.data["cond"], Term) and e.data["cond"].op == "comp" for e in pa.assumes()):
-                    ctx.violated("C03.READ", inst, "sub-elements are parsed but not passed as children", fi=f, text="children-dropped")
+            if kids:
+                got = r.attrs.get("children")
+                items = None
+                if isinstance(got, Term) and got.op == "call" and got.args[1] and isinstance(got.args[1][0], (Tup, Lst)):
+                    items = got.args[1][0].items  # checks.children(<parsed>, cls)
+                elif isinstance(got, (Tup, Lst)):
+                    items = got.items
+                if items is None or len(items) != len(kids):
+                    ctx.violated("C03.READ", inst, f"{len(kids)} sub-elements arrive as {show(got)[:60] if got is not None else None}", fi=f, text=f"children-count:{ci.name}")
                     bad = True
-        # unknown tag must raise: the zero-iteration path
-        zero = [pa for pa in paths if any(e.kind == "loop-enter" and e.data["n"] == 0 for e in pa.events)]
-        if not zero or not all(pa.outcome == "raise" for pa in zero):
-            ctx.violated("C03.READ", inst, "an element whose tag matches no class does not raise", fi=f, text="unknown-tag")
-            bad = True
-        if not bad:
-            ctx.holds("C03.READ", inst, f"{len(rets)} returning paths: registry class(**attrib), stripped text, ordered children; unknown tag raises", fi=f)
-        ctx.sample({"rule": "C03.READ", "function": inst, "path": path_text(rets[0])})
+                else:
+                    for i, ((kcls, pattr, ktext), o) in enumerate(zip(kids, items)):
+                        if not (isinstance(o, Obj) and o.cls is kcls):
+                            gotc = o.cls.qualname if isinstance(o, Obj) and o.cls is not None else show(o)[:40]
+                            ctx.violated("C03.READ", inst, f"sub-element #{i} <{lower_first(kcls.name)}> parses ({order_name}) to {gotc} instead of {kcls.qualname}", fi=fp, text=f"child-class:{ci.name}:{gotc}", witness=f"parse sequence in {order_name}")
+                            bad = True
+                            continue
+                        for k, v in pattr.items():
+                            g2 = o.attrs.get(k)
+                            if g2 is None or not mentions(g2, lambda t: isinstance(t, Const) and t.v == v):
+                                ctx.violated("C03.READ", inst, f"sub-element #{i}: attribute {k}={v!r} arrives as {show(g2)[:30] if g2 is not None else 'missing'} (children out of order or attributes lost)", fi=fp, text=f"child-attr:{ci.name}:{k}")
+                                bad = True
+                        g3 = o.attrs.get("value")
+                        if g3 is None or not mentions(g3, lambda t: isinstance(t, Const) and t.v == ktext.strip()):
+                            ctx.violated("C03.READ", inst, f"sub-element #{i}: text arrives as {show(g3)[:30] if g3 is not None else None}, expected stripped {ktext.strip()!r}", fi=fp, text=f"child-text:{ci.name}")
+                            bad = True
+    # empty text is absent text; unknown tags raise
+    def run_empty(it: Interp):
+        seed_registry(it, p, regs)
+        eb = [c_ for c_ in regs if c_.name == "EnableBLOB"][0]
+        el = xml_element("setTextVector", {"device": "d", "name": "n", "state": "Ok"}, None, [xml_element("oneText", {"name": "a"}, None), xml_element("oneText", {"name": "b"}, "")])
+        return it.run_function(Fn(f, Cls(base)), [el], {})
+
+    paths = explore(p, run_empty, opts)
+    ok = len(paths) == 1 and paths[0].outcome == "return" and isinstance(paths[0].value, Obj)
+    if ok:
+        ch = paths[0].value.attrs.get("children")
+        items = ch.args[1][0].items if isinstance(ch, Term) and ch.op == "call" and ch.args[1] and isinstance(ch.args[1][0], (Tup, Lst)) else []
+        ok = len(items) == 2 and all(isinstance(o, Obj) and isinstance(o.attrs.get("value"), Const) and o.attrs["value"].v is None for o in items)
+    ctx.check(ok, "C03.READ", fp.short + "[empty text]", "absent and empty text both parse to value None", "absent/empty element text does not parse to an absent value", fi=fp, text="empty-text")
+    for which, fn_, tag in (("message", f, "fooBar"), ("part", fp, "fooPart")):
+        def run_unknown(it: Interp, fn_=fn_, tag=tag, which=which):
+            seed_registry(it, p, regs)
+            return it.run_function(Fn(fn_, Cls(base if which == "message" else part_base(p))), [xml_element(tag, {"name": "x"}, "t")], {})
+
+        paths = explore(p, run_unknown, opts)
+        ctx.check(len(paths) == 1 and paths[0].outcome == "raise", "C03.READ", fn_.short + "[unknown tag]", "raises", f"an element with an unknown {which} tag is not rejected", fi=fn_, text=f"unknown-tag:{which}")
+    ctx.counters["C03.READ:elements parsed abstractly"] = nparsed
+    if not bad:
+        ctx.holds("C03.READ", f.short, f"{nparsed} abstract parses (all registered kinds with two children each, in registry and reverse order): right class per hierarchy, attributes by name, stripped text, children in document order", fi=f)
     fs = msg_base(p).find_method("from_string")
     paths = run_method(p, fs, self_val=Cls(msg_base(p)), args=[Term("param", "string")])
     ok = all(pa.outcome == "return" and isinstance(pa.value, Term) and is_call(pa.value, method="from_xml") and "fromstring(string)" in show(pa.value) for pa in paths)
